@@ -512,14 +512,17 @@ func (r *runner) observe(o *opObs) {
 }
 
 // walkTree lists the stored (non-root, non-attached) nodes of a pathbadger root with their positions.
-func (r *runner) walkTree(ri *rootInfo) (out [][3]int) {
+// Positions come from the pointers serialized in the parent node; a node inherited from the old
+// root (node version below the root's version) is fetched through the OLD root, so that the walk
+// also works for a pipelined child that pathbadger itself misreads (known finding).
+func (r *runner) walkTree(ri, oi *rootInfo) (out [][3]int) {
 	if ri.rid < 2 {
 		return
 	}
 	root := ri.root()
-	var walk func(ptr *node.Pointer)
-	walk = func(ptr *node.Pointer) {
-		nd, err := r.rec.NodeDB.GetNode(root, ptr)
+	var walk func(ptr *node.Pointer, via node.Root)
+	walk = func(ptr *node.Pointer, via node.Root) {
+		nd, err := r.rec.NodeDB.GetNode(via, ptr)
 		if err != nil {
 			return
 		}
@@ -528,20 +531,34 @@ func (r *runner) walkTree(ri *rootInfo) (out [][3]int) {
 				if ch == nil {
 					continue
 				}
+				next := root
 				if ver, idx, ok := ptrKey(ch); ok {
 					out = append(out, [3]int{int(ver), int(idx), r.nid(ch.Hash)})
+					if oi != nil && oi.rid >= 2 && ver < ri.ver {
+						next = oi.root()
+					}
 				}
-				walk(ch)
+				walk(ch, next)
 			}
 		}
 	}
-	walk(&node.Pointer{Clean: true, Hash: root.Hash})
+	walk(&node.Pointer{Clean: true, Hash: root.Hash}, root)
 	return
 }
 
 // derivedTree: the new root's stored nodes from the batch itself (old tree minus the positions
 // passed to RemoveNodes plus the written positions) - used when the root cannot be read back.
-func (r *runner) derivedTree(oi *rootInfo) (out [][3]int) {
+func (r *runner) derivedTree(oi, ri *rootInfo) (out [][3]int) {
+	rootID := r.nid(ri.hash) // a clean node promoted to root node is stored under the root key only
+	defer func() {
+		kept := out[:0]
+		for _, e := range out {
+			if e[2] != rootID {
+				kept = append(kept, e)
+			}
+		}
+		out = kept
+	}()
 	rem := map[[2]uint64]bool{}
 	for _, p := range r.rec.remPos {
 		rem[p] = true
@@ -706,11 +723,7 @@ func (r *runner) step(op Op) (o opObs) {
 			if t, ok := r.trees[kk]; ok && !fresh {
 				o.tree = t
 			} else {
-				if r.tainted {
-					o.tree = r.derivedTree(oi)
-				} else {
-					o.tree = r.walkTree(ri)
-				}
+				o.tree = r.walkTree(ri, oi)
 				r.trees[kk] = o.tree
 			}
 		}
